@@ -1,0 +1,18 @@
+"""
+Verification hooks (used only by the external verification harness).
+Disabled unless the environment variable XITORCH_VERIF=1 is set when xitorch
+is imported; when disabled every call site costs a single attribute test.
+"""
+import os
+
+ENABLED = os.environ.get("XITORCH_VERIF") == "1"
+_sink = None
+
+def set_sink(fn):
+    # fn(event: str, fields: dict) or None to remove the sink
+    global _sink
+    _sink = fn
+
+def emit(event, **fields):
+    if _sink is not None:
+        _sink(event, fields)
